@@ -158,7 +158,10 @@ DeepRep == 300000
 DeepCases ==
   {[fam |-> "deep", ph |-> "case", lang |-> c[1], form |-> c[2], unit |-> c[3], rep |-> DeepRep, sep |-> "sp", nm |-> 0] : c \in {
       <<"val", <<>>, <<"[">>>>, <<"val", <<>>, <<"{", "a", ":">>>>, <<"val", <<"[">>, <<"[", "{", "a", ":">>>>,
-      <<"exe", <<>>, <<"{", "a">>>>, <<"exe", <<"{">>, <<"...", "{">>>>, <<"exe", <<"{", "a", "(", "x", ":">>, <<"[">>>>,
+      <<"exe", <<>>, <<"{", "a">>>>, <<"exe", <<"{">>, <<"...", "{">>>>,
+      \* (fields with an argument / a directive at every level: values are read in between the selection sets)
+      <<"exe", <<>>, <<"{", "a", "(", "x", ":", "1", ")">>>>, <<"exe", <<>>, <<"{", "a", "@", "include", "(", "if", ":", "true", ")">>>>,
+      <<"exe", <<"{">>, <<"...", "@", "skip", "(", "if", ":", "[", "]", ")", "{">>>>, <<"exe", <<"{", "a", "(", "x", ":">>, <<"[">>>>,
       <<"exe", <<"{", "a", "(", "x", ":">>, <<"{", "a", ":">>>>, <<"exe", <<"query", "(", "$", "v", ":">>, <<"[">>>>,
       <<"exe", <<"query", "(", "$", "v", ":", "Int", "=">>, <<"[">>>>, <<"exe", <<"{", "...", "on">>, <<"[">>>>,
       <<"sdl", <<"type", "Query", "{", "a", ":">>, <<"[">>>>, <<"sdl", <<"type", "Query", "{", "a", "(", "x", ":", "Int", "=">>, <<"[">>>>,
